@@ -717,14 +717,32 @@ func runC08(c *mon.Ctx) {
 	})
 
 	// --- sweep around the 16-bit limits -------------------------------------
-	c.Stratum("limit", c.N(3*17*2*2, 3*17*2*40), func(k *mon.Case) {
+	c.Stratum("limit", c.N(4*17*2*2, 4*17*2*40), func(k *mon.Case) {
 		r := k.Rng
 		i := k.Index
 		tt := otl.GSUB + i%2
 		i /= 2
 		d := 2*(i%17) - 16 // -16 … +16, even
 		i /= 17
-		mode := i % 3
+		mode := i % 4
+		// every second repetition: the large lookups carry a mark filtering
+		// set (two more bytes in their header, also when their subtables are
+		// replaced by extension records)
+		withSet := (i/4)%2 == 1
+		if withSet && mode == 1 {
+			// the largest lookup then needs 18 or 20 bytes as a table of
+			// extension records: sweep the rest across 0x10000 minus that
+			d -= 18
+		}
+		filler := func(n int) *gtab.LookupTable {
+			if !withSet || n-2 < 22 {
+				return otl.Filler(tt, n)
+			}
+			l := otl.Filler(tt, n-2)
+			l.Meta.LookupFlags |= gtab.UseMarkFilteringSet
+			l.Meta.MarkFilteringSet = uint16(r.IntN(4))
+			return l
+		}
 		small := func() *gtab.LookupTable {
 			types := otl.LookupTypes(tt, otl.Opts{})
 			return otl.Lookup(r, tt, types[r.IntN(len(types))], otl.Opts{MaxGID: 500, Size: otl.Small, NumLookups: 2, MaxSubs: 2})
@@ -748,7 +766,7 @@ func runC08(c *mon.Ctx) {
 			last := small()
 			hdr := 2 + 2*(len(ll)+2)
 			f := 0x10000 + d - hdr - size(ll)
-			ll = append(ll, otl.Filler(tt, f), last)
+			ll = append(ll, filler(f), last)
 		case 1:
 			// total minus the largest lookup = 0x10000 + d: decides whether
 			// moving the largest lookup to the end suffices
@@ -756,28 +774,47 @@ func runC08(c *mon.Ctx) {
 			for j := 0; j < 1+r.IntN(4); j++ {
 				ll = append(ll, small())
 			}
-			big := otl.Filler(tt, 40000+2*r.IntN(5000))
+			big := filler(40000+2*r.IntN(5000))
 			hdr := 2 + 2*(len(ll)+2)
 			f := 0x10000 + d - hdr - size(ll)
 			if f >= 39000 {
-				big = otl.Filler(tt, 62000)
+				big = filler(62000)
 			}
-			parts := gtab.LookupList{otl.Filler(tt, f), big}
+			parts := gtab.LookupList{filler(f), big}
 			if r.IntN(2) == 0 {
 				parts[0], parts[1] = parts[1], parts[0]
 			}
 			at := r.IntN(len(ll) + 1)
 			ll = append(ll[:at], append(parts, ll[at:]...)...)
+		case 3:
+			// the largest lookup goes to the end; the second largest (with a
+			// mark filtering set) becomes a table of one extension record of
+			// 18 bytes; the others are sized so that the largest then starts
+			// at 0x10000 + d: for d >= 0 a further lookup has to give way
+			scen = "after-one-replacement"
+			second := otl.Filler(tt, 30000-2)
+			second.Meta.LookupFlags |= gtab.UseMarkFilteringSet
+			second.Meta.MarkFilteringSet = uint16(r.IntN(4))
+			big := otl.Filler(tt, 40000+2*r.IntN(5000))
+			hdr := 2 + 2*5
+			rest := 0x10000 + d - 18 - hdr
+			a := 20000 + 2*r.IntN(1000)
+			b := 20000 + 2*r.IntN(1000)
+			ll = gtab.LookupList{otl.Filler(tt, a), otl.Filler(tt, b), otl.Filler(tt, rest-a-b), second, big}
+			r.Shuffle(len(ll), func(i, j int) { ll[i], ll[j] = ll[j], ll[i] })
 		default:
 			// offset of the last subtable inside one lookup = 0x10000 + d
 			scen = "subtable-offset"
-			f := otl.Filler(tt, 0x10000+d-10+8) // subtable of size 0x10000+d-10
-			tail := otl.Filler(tt, 22+2*r.IntN(40))
+			f := filler(0x10000+d-10+8) // subtable of size 0x10000+d-10
+			tail := filler(22+2*r.IntN(40))
 			l := &gtab.LookupTable{Meta: f.Meta, Subtables: []gtab.Subtable{f.Subtables[0], tail.Subtables[0]}}
 			ll = gtab.LookupList{small(), l, small()}
 		}
 		info := &gtab.Info{ScriptList: otl.ScriptList(r, otl.DefaultTags, 1), FeatureList: otl.FeatureList(r, 1, len(ll)), LookupList: ll}
 		scen = "limit-" + scen
+		if withSet {
+			k.Class("limit:large-lookups-with-mark-filtering-set")
+		}
 		out, ok := c08judge(k, scen, tt, info)
 		if ok {
 			k.Class(fmt.Sprintf("%s:%+d", scen, d))
